@@ -156,7 +156,7 @@ def run(rec, tier, seed):
                 "distinct = specs")
     rnd = random.Random(seed)
     A = [dict(n=n, seed=s, terms=t, coeffs=c, extra=x, cell='ortho') for n in (2, 3, 4) for (s, t, c, x) in ((0, True, True, True), (1, True, False, False), (2, False, True, True))]
-    B = [dict(n=n, seed=s + 3, terms=t, coeffs=c, extra=x, cell=None, xrev=xr) for n in (1, 2, 3) for (s, t, c, x, xr) in ((0, True, True, True, False), (1, True, False, False, False), (2, True, True, True, True))]
+    B = [dict(n=n, seed=s + 3, terms=t, coeffs=c, extra=x, cell=None, xrev=xr) for n in (1, 2, 3, 4) for (s, t, c, x, xr) in ((0, True, True, True, False), (1, True, False, False, False), (2, True, True, True, True))]
     for b_ in B:
         if b_['coeffs'] and b_['n'] == 2:
             b_['long'] = True
